@@ -362,6 +362,10 @@ func (c *Client) Stall() {
 	c.mu.Unlock()
 }
 
+// StallFromCallback is Stall for use inside OnPacket (which runs with the
+// client's lock held): reading stops after the current batch of packets.
+func (c *Client) StallFromCallback() { c.stalled = true }
+
 // Unstall resumes reading.
 func (c *Client) Unstall() {
 	c.mu.Lock()
